@@ -908,7 +908,7 @@ uint64_t RobustPath::commands(const CurveInstruction *items, uint64_t count) {
             case 'C':
                 if (end - item < 6) return item - items - 1;
                 cubic(Vec2{item[0].number, item[1].number}, Vec2{item[2].number, item[3].number},
-                      Vec2{item[4].number, item[4].number}, NULL, NULL, instruction == 'c');
+                      Vec2{item[4].number, item[5].number}, NULL, NULL, instruction == 'c');
                 item += 6;
                 break;
             case 's':
